@@ -81,7 +81,7 @@ def TABLE_DIM_OK(n):
 def case(draw):
     op = draw(st.sampled_from(OP_NAMES + ["trait", "trait"]))
     t1 = draw(units.tree(max_leaves=3, allow_scale=True))
-    mk = draw(st.sampled_from(["near", "near", "random", "special", "samebase"]))
+    mk = draw(st.sampled_from(["near", "near", "random", "special", "samebase", "opaque"]))
     c = {"op": op, "t1": t1, "mk": mk, "rep": draw(st.sampled_from(["double", "float", "int32_t", "int64_t", "long double", "uint64_t", "int16_t", "uint8_t"])),
          "rep2": draw(st.sampled_from(["double", "int32_t", "int64_t", "float"])),
          "nl": draw(st.sampled_from(units.NO_TWIN_LEAVES)), "ne": draw(st.sampled_from([(1, 1), (-1, 1), (1, 2), (2, 1), (-1, 2)])),
@@ -109,6 +109,13 @@ def prepare(c, cxx20):
         X = L(c["nl"]) if TABLE_DIM_OK(c["nl"]) else L("Meters")
         t1 = {"k": "div", "a": {"k": "pow", "a": copy.deepcopy(X), "n": an, "d": ad}, "b": {"k": "pow", "a": copy.deepcopy(X), "n": bn, "d": bd}}
         t2 = L("Unos") if c["origin_side"] == 0 else {"k": "pow", "a": copy.deepcopy(X), "n": 1, "d": 1}
+    elif c["mk"] == "opaque":
+        # an integer power of a SCALED (hence opaque to the unit algebra) unit whose dimension has a fractional exponent: (sqrt(X) * 1000)^2 has the dimension of X;
+        # the mismatched partner is X^(k*n), what a numerator-only exponent product would give
+        n, d, k = [(1, 2, 2), (1, 3, 3), (1, 2, 4), (3, 2, 2), (1, 2, -2), (2, 3, 3), (1, 2, 6)][c["sp"] % 7]
+        X = L(c["nl"]) if TABLE_DIM_OK(c["nl"]) else L("Meters")
+        t1 = {"k": "pow", "a": {"k": "scale", "a": {"k": "pow", "a": copy.deepcopy(X), "n": n, "d": d}, "num": [1000, 12, 7][c["sp"] % 3], "den": 1, "pi": [0, 1]}, "n": k, "d": 1}
+        t2 = {"k": "pow", "a": copy.deepcopy(X), "n": k * n, "d": 1}
     elif c["mk"] == "special":
         t1, t2 = copy.deepcopy(SPECIAL_PAIRS[c["sp"] % len(SPECIAL_PAIRS)])
     elif c["mk"] == "near":
@@ -181,6 +188,9 @@ def grid_cases():
     for sp in range(8):
         for name in ("+", "==", "implicit construction", ".as(unit)", "trait", "std::common_type"):
             out.append({"op": name, "t1": L("Meters"), "mk": "samebase", "rep": "double", "rep2": "double", "nl": ["Meters", "Seconds", "Hertz", "Feet"][sp % 4], "ne": (1, 1), "sp": sp, "origin": None, "origin_side": sp % 2})
+    for sp in range(7):
+        for name in ("+", "<", ".in(unit)", "trait", "std::common_type"):
+            out.append({"op": name, "t1": L("Meters"), "mk": "opaque", "rep": "double", "rep2": "double", "nl": ["Meters", "Hertz", "Feet"][sp % 3], "ne": (1, 1), "sp": sp, "origin": None, "origin_side": 0})
     pairs = [(L("Meters"), L("Seconds")), (L("Celsius"), L("Meters")), (L("Meters"), L("Celsius")), (L("Unos"), L("Radians")), (L("Hertz"), {"k": "div", "a": L("Radians"), "b": L("Seconds")})]
     for name in OP_NAMES + ["trait"]:
         for j, (a, b) in enumerate(pairs):
